@@ -10,11 +10,10 @@ from .. import callrun, gen, core
 import os
 
 
-def param_order(chk):
-    """inspect.signature of every client method vs the flattened order the spec declares."""
+def signatures():
+    """inspect.signature of every client method of the emitted carrier (sync and asyncio)."""
     import json, subprocess
-    cases, _ = callrun.tlc.emit_cases('Call', 'Call.emit.small.cfg', deadlock=False, simulate=400, depth=8, seed=chk.seed, timeout=600)
-    flat = {c['method']: c['flat'] for c in cases}
+    names = [m['snake'] for m in callrun.METHODS.values()]
     api = callrun.carrier_api()
     code = r'''
 import sys, json, inspect, importlib
@@ -33,12 +32,18 @@ print(json.dumps(out))
         for fdp in req.proto_file:
             if fdp.name.startswith('other/'):
                 pipeline.write_pb2(fdp, root)
-        names = [callrun.METHODS[m]['snake'] for m in flat]
         e = dict(os.environ); e['PYTHONPATH'] = root
         r = subprocess.run([gen.PY, '-W', 'ignore', '-c', code, callrun.MODULE, json.dumps(names)], capture_output=True, text=True, env=e, cwd=root)
         if r.returncode:
             raise core.MachineryError('signature probe failed: ' + r.stderr[-800:])
-        got = json.loads(r.stdout.strip().splitlines()[-1])
+        return json.loads(r.stdout.strip().splitlines()[-1])
+
+
+def param_order(chk, got, dep_enum):
+    """parameter lists vs the flattened order the specification declares."""
+    cases, _ = callrun.tlc.emit_cases('Call', callrun._cfg('Call.emit.small.cfg', dep_enum), deadlock=False, simulate=400, depth=8,
+                                      seed=chk.seed, timeout=600)
+    flat = {c['method']: c['flat'] for c in cases}
     pname = lambda f: {'inner.name': 'name', 'class': 'class_'}.get(f, f)
     for m, fl in flat.items():
         want = [pname(f) for f in fl]
@@ -52,9 +57,23 @@ print(json.dumps(out))
 def main(chk, args):
     quick = chk.tier == 'quick'
     sel = lambda c: c['form'] in ('kwargs', 'both') or (c['form'] == 'msg' and c['method'] in ('UpdateThing', 'CheckDep') and not c['cs'])
-    cases = callrun.get_cases(chk, quick, chk.seed, select=sel, n_quick=2500)
-    callrun.check(chk, cases, 'C05')
-    param_order(chk)
+    got = signatures()
+    # does a client offer the ENUM field of the dependency-package request as a keyword?  (named deviation: today neither does)
+    offered = {cls: 'kind' in got.get(f'{cls}.check_dep', []) for cls in ('ThingsClient', 'ThingsAsyncClient')}
+    dep_enum = all(offered.values())
+    chk.case('signature:dep-enum-offered', nontrivial=True)
+    if len(set(offered.values())) > 1:
+        chk.violation('signature:dep-enum-offered:sync-async-differ', f'sync and asyncio clients disagree on the flattened parameters of check_dep: {offered}')
+        dep_enum = True      # judge every client that offers it
+    cases = callrun.get_cases(chk, quick, chk.seed, select=sel, n_quick=2500, dep_enum=dep_enum)
+    if dep_enum:
+        # make sure the enum keyword is exercised on every transport
+        extra = [c for c in callrun.tlc.emit_cases('Call', callrun._cfg('Call.emit.small.cfg', True), deadlock=False, timeout=1800)[0]
+                 if c['method'] == 'CheckDep' and c['form'] == 'kwargs' and c['args']['kw'].get('kind')]
+        cases += extra[:60]
+    callrun.check(chk, cases, 'C05', dep_enum=dep_enum)
+    param_order(chk, got, dep_enum)
+    chk.extra['dependency_request_enum_offered_as_keyword'] = dep_enum
     chk.rule = ('cases = final states of Call.tla with form kwargs (all non-empty subsets <=2 of the flattened fields x 2 values) or both '
                 '(request + kwargs), on sync, asyncio and REST clients, plus request-form calls of the same methods; non-trivial = all; '
                 'distinct by (method, transport, form, valuations)')
